@@ -209,6 +209,19 @@ Section CliToSrv.
     intros Hv n. destruct (cinv_run hs _ cinv_init Hv) as [[A1 A2 A3 A4 A5 A6 A7 A8 A8' A9 A10 A11 A12 A13 A14 A15] _].
     exact A13.
   Qed.
+
+  Theorem cli_to_srv_custody hs :
+    hvalid e P SCli th (after_send e SCli cli srv p ucb t0) hs ->
+    let n := trun e P (after_send e SCli cli srv p ucb t0) hs in
+    let rs := Retry (c_next_rid cli) (seq_succ (c_seq_msg cli)) APP p ucb in
+    c_incoming (t_srv n) = c_incoming srv ->
+    zmem (c_next_rid cli) (c_done (t_cli n)) = false /\
+    ((exists m, In m (c_outgoing (t_cli n)) /\ m_seq m = seq_succ (c_seq_msg cli) /\ m_payload m = p
+                /\ m_retry m = RTimeout /\ m_cb m = Some rs)
+     \/ (exists m, In (seq_succ (c_seq_msg cli), m) (c_pretry_msg (t_cli n)) /\ m_payload m = p /\ m_cb m = Some rs)).
+  Proof.
+    intros Hv n rs Hu. destruct (cinv_run hs _ cinv_init Hv) as [I _]. eapply LJ_custody; [exact HM|exact I|exact Hu].
+  Qed.
 End CliToSrv.
 
 (* ================= the executable hypotheses imply the stated ones ================= *)
@@ -395,6 +408,19 @@ Section SrvToCli.
   Proof.
     intros Hv n. destruct (sinv_run hs _ sinv_init Hv) as [[A1 A2 A3 A4 A5 A6 A7 A8 A8' A9 A10 A11 A12 A13 A14 A15] _].
     exact A13.
+  Qed.
+
+  Theorem srv_to_cli_custody hs :
+    hvalid e P SSrv th (after_send e SSrv cli srv p ucb t0) hs ->
+    let n := trun e P (after_send e SSrv cli srv p ucb t0) hs in
+    let rs := Retry (c_next_rid srv) (seq_succ (c_seq_msg srv)) APP p ucb in
+    c_incoming (t_cli n) = c_incoming cli ->
+    zmem (c_next_rid srv) (c_done (t_srv n)) = false /\
+    ((exists m, In m (c_outgoing (t_srv n)) /\ m_seq m = seq_succ (c_seq_msg srv) /\ m_payload m = p
+                /\ m_retry m = RTimeout /\ m_cb m = Some rs)
+     \/ (exists m, In (seq_succ (c_seq_msg srv), m) (c_pretry_msg (t_srv n)) /\ m_payload m = p /\ m_cb m = Some rs)).
+  Proof.
+    intros Hv n rs Hu. destruct (sinv_run hs _ sinv_init Hv) as [I _]. eapply LJ_custody; [exact HM|exact I|exact Hu].
   Qed.
 End SrvToCli.
 
